@@ -3,7 +3,8 @@ spec/Io/Params is the schema of the parameter file (every tag with its section, 
 of a file that is valid except for one fault; TLC enumerates every (file shape, tag, fault) and checks the schema's sanity.  Each
 enumerated case is rendered to XML (distinct value per tag instance, decimal and scientific notation, shuffled tag order inside a
 section) and read by the real parameter_reader; TLC (ParamsTrace) compares verdict and every field of the returned structures with
-the specification.  'Governs the run' is covered by C19 / C11 / C04 whose scenarios' observables depend on dt, T, S, l_min."""
+the specification.  'Governs the run': density, damping and time step through a replay of spec/Integrate's behaviours into the real integrator (as in C03);
+dt, T, S, l_min through C19 / C11 / C04, whose scenarios' observables depend on them."""
 import json, os, random, shutil
 import vlib
 from vlib import Check, ModelError
@@ -166,6 +167,37 @@ def run(tier, seed, replay=None):
         chk.cov["controls_run"], chk.cov["controls_rejected"] = 3, rej
         if rej != 3:
             raise ModelError("negative controls: %d of 3 rejected %r" % (rej, cbad))
+    # ---- "the values then govern the run": the mass density, the damping coefficient and the time step enter the motion only through
+    # the integration law (per-node mass = density * volume / live nodes).  A sample of the behaviours of spec/Integrate is replayed
+    # into the real integrator (fresh cells and cells with unused node slots), as in C03; dt / T / S / l_min are covered by C19 / C11.
+    if not replay:
+        import c03
+        dump = os.path.join(work, "integ")
+        res = vlib.tlc(os.path.join(vlib.ROOT, "spec", "Integrate"), "IntegrateMC", "Integrate_dyn_quick.cfg", dump=dump, timeout=1500, xmx="8g")
+        chk.add_tlc("Integrate/Integrate_dyn_quick.cfg", res)
+        vlib.tlc_expect_ok(res, "Integrate")
+        gcases = c03.behaviours(dump + ".dump", 3000 if tier == "quick" else 12000, random.Random(seed))
+        for i, c in enumerate(gcases):
+            c["k"] = i + 1
+            c["frag"] = i % 2 == 1
+        gdir = vlib.build("m1d0", ["integ_driver"])
+        cp, op = os.path.join(work, "gov_cases.ndjson"), os.path.join(work, "gov_obs.ndjson")
+        vlib.write_ndjson(cp, gcases)
+        rc, out = vlib.run([os.path.join(gdir, "integ_driver"), cp, op], timeout=1800)
+        gobs = vlib.read_ndjson(op) if os.path.exists(op) else []
+        if rc != 0 or len(gobs) != len(gcases):
+            chk.violation("crash:governs", "the integrator crashed while replaying the law that density, damping and time step enter (status %d)" % rc)
+        else:
+            ngov = 0
+            for c, o in zip(gcases, gobs):
+                ngov += 1
+                msg = c03.compare(c, o, "dyn", 1)
+                if msg:
+                    key = {k: c[k] for k in ("static", "mass", "dtinv", "damp", "coupled", "hi", "frag")}
+                    chk.violation("impl:governs:%s" % json.dumps(key), "mass density / damping / time step do not govern the motion as the integration law says, on %s: %s" % (json.dumps(key), msg), {"governs_case": c})
+            chk.cov["governs_replays"] = ngov
+            chk.cov["traces_validated_against_impl"] += ngov
+            chk.cov["evaluations"] += ngov
     chk.assumptions += ["sign rules are the reader's own diagnostics (doc/parameter_file_doc.md states none): > 0 for duration, time step, sampling period (and >= time step), "
                         "minimum edge length, both cut-offs, isoperimetric ratio; >= 0 for damping, face ids, tensions, strengths, bending modulus; zero damping and INF in "
                         "undocumented places are 'either'", "empty / non-numeric elements belong to C17"]
